@@ -14,5 +14,9 @@ sed "s#=> /repo#=> $wt#" /verif/harness/go.mod > /tmp/mut.$$.mod; cp /verif/harn
 tags=verif; race=""; [ "$id" = C17 ] && race="-race"
 (cd /verif/harness && go build $race -tags $tags -modfile=/tmp/mut.$$.mod -o /verif/bin/verif-mut.$$ ./cmd/verif) || exit 2
 mkdir -p /tmp/mutverif.$$; cp /verif/known_findings.json /tmp/mutverif.$$/
-/verif/bin/verif-mut.$$ check $id --tier $tier --seed $seed --verif /tmp/mutverif.$$ 2>&1 | grep "^violation\|^check\|^VIOLATION\|^KNOWN" | sed 's/replay=.*//' | awk '{ if ($1=="violation") {$2=""}; print }' | cut -c1-220 | sort | uniq -c | sort -rn | head -${MUT_LINES:-12}
+/verif/bin/verif-mut.$$ check $id --tier $tier --seed $seed --verif /tmp/mutverif.$$ > /tmp/mutout.$$ 2>&1
+grep "^check\|^VIOLATION" /tmp/mutout.$$ | sed 's/replay=.*//' | cut -c1-220
+grep "^violation" /tmp/mutout.$$ | sed 's/replay=.*//' | awk '{ $2=""; print }' | cut -c1-220 | sort | uniq -c | sort -rn | head -${MUT_LINES:-12}
+[ -n "${MUT_KEEP:-}" ] && cp /tmp/mutout.$$ "$MUT_KEEP"
+rm -f /tmp/mutout.$$
 rm -rf /tmp/mutverif.$$
